@@ -1009,6 +1009,12 @@ let () =
          if is_libpanic then say "A-FAIL %s: the library panicked: %s" where ret_s;
          let ret = parse_out ret_s in
          if ret = Some OutUnwind then bump branch ("unwound_" ^ (match armws with (a :: _) :: _ -> a | _ -> "op"));
+         (* branch bookkeeping from the implementation's own dumps (also when level C is off) *)
+         if tpost.mask = tpre.mask && tpre.mask <> nat_of_int 0 && Z.ltb (Z.add tpre.growth_left (zi 1)) tpost.growth_left
+            && List.mem opname ["insert"; "reserve"; "tryreserve"; "entry_or_insert"; "entry_insert"; "tryinsert"; "extend"; "entry_and_modify";
+                                "rentry_or_insert"; "rentry_insert"; "rentry_drop"; "raw_or_insert"; "raw_insert"; "eref_or_insert"; "eref_insert"]
+         then bump branch (if lawful then "in_place_rehash_seen" else "in_place_rehash_unlawful_hasher");
+         if tpost.mask <> tpre.mask && tpre.mask <> nat_of_int 0 && tpost.mask <> nat_of_int 0 && not lawful then bump branch "resize_unlawful_hasher";
          (* ---- level B ---- *)
          if do_b then begin
            incr b_checked;
